@@ -194,7 +194,7 @@ def run(ctx):
         if not ok:
             continue
         ctx.requires("C09.B.zero-items", b, few[0][0], "too_few_items", [r"^len\(a1\)=0$"])
-        ctx.requires("C09.B.many-items", b, many[0][0], "too_many_items", [r"^len\(a1\)=\('not-in', \(0, 1\)\)$"])
+        ctx.requires("C09.B.many-items", b, many[0][0], "too_many_items", [("ne", r"^len\(a1\)$", 0), ("ne", r"^len\(a1\)$", 1)])
         ctx.ob("C09.B.arity-constants", b.key, "min/max = 1", ctx.expr(b, few[0][1]["args"][0]) == "1_usize" and ctx.expr(b, many[0][1]["args"][0]) == "1_usize", "%s / %s" % (ctx.expr(b, few[0][1]["args"][0]), ctx.expr(b, many[0][1]["args"][0])))
         for blk, c, sw, tt, ft, lhs in D.name_tests:
             if "path_to_string" in lhs and "a1[]" in lhs:
